@@ -23,7 +23,11 @@ Record dcli : Type := mkDcli {
   dc_to : text;             (* c->to: output not yet written to the descriptor *)
   (* history variables (not part of the C state; used by the theorems only) *)
   dc_nl : nat;              (* number of LF bytes received from the client so far = complete lines received *)
-  dc_lines : nat            (* lines handed to _parse_input so far *)
+  dc_lines : nat;           (* lines handed to _parse_input so far *)
+  dc_eof : bool;            (* a read has returned end-of-file (or an error) on this descriptor *)
+  dc_bad : bool;            (* the descriptor misbehaved: a write failed (queued output was dropped), or bytes arrived
+                               after end-of-file; nothing is claimed about the stream of such a client afterwards *)
+  dc_sent : text            (* every byte written to the descriptor so far *)
 }.
 Fixpoint count_lf (s : text) : nat := match s with [] => O | c :: r => ((if N.eqb c LF then 1 else 0) + count_lf r)%nat end.
 
@@ -67,9 +71,12 @@ Record dout : Type := mkDout { do_evs : list sysev; do_tmo : option Z }.
 
 Definition set_dc (c : client) (x : dcli) : dcli :=
   (* whatever the client layer appended to cl_out goes into c->to as well *)
-  mkDcli c (dc_from x) (dc_to x ++ skipn (length (cl_out (dc x))) (cl_out c)) (dc_nl x) (dc_lines x).
+  mkDcli c (dc_from x) (dc_to x ++ skipn (length (cl_out (dc x))) (cl_out c)) (dc_nl x) (dc_lines x) (dc_eof x) (dc_bad x) (dc_sent x).
 Definition set_quit (x : dcli) : dcli :=
-  let c := dc x in mkDcli (mkClient (cl_id c) (cl_cmd c) (cl_tele c) (cl_exp c) true (cl_out c)) (dc_from x) (dc_to x) (dc_nl x) (dc_lines x).
+  let c := dc x in mkDcli (mkClient (cl_id c) (cl_cmd c) (cl_tele c) (cl_exp c) true (cl_out c)) (dc_from x) (dc_to x) (dc_nl x) (dc_lines x)
+                          (dc_eof x) (dc_bad x) (dc_sent x).
+Definition set_eof (x : dcli) : dcli := mkDcli (dc x) (dc_from x) (dc_to x) (dc_nl x) (dc_lines x) true (dc_bad x) (dc_sent x).
+Definition set_bad (x : dcli) : dcli := mkDcli (dc x) (dc_from x) (dc_to x) (dc_nl x) (dc_lines x) (dc_eof x) true (dc_sent x).
 
 (* cbuf_read_line(c->from, buf, sizeof buf, 1): the bytes up to and including the first LF (valid while the line is
    shorter than the 1 MiB line buffer: `line_fits`) *)
@@ -137,7 +144,7 @@ Section D.
           let '(cf', store', c', q) := parse_input expand_str ranged_sorted ranged_plain sorted (cconf_of st) (dm_store st) (dc x) line in
           (* (since the repair of F37 `quit` no longer writes at once on a descriptor made blocking: the 101 line is
              queued like any other output) *)
-          let x' := set_dc c' (mkDcli (dc x) rest (dc_to x) (dc_nl x) (S (dc_lines x))) in
+          let x' := set_dc c' (mkDcli (dc x) rest (dc_to x) (dc_nl x) (S (dc_lines x)) (dc_eof x) (dc_bad x) (dc_sent x)) in
           let tele := cl_tele (dc x) in
           let args := length (dm_store st) in
           match (match q with [] => Ok (dm_devs st) | _ => enq_all (dm_devs st) q (cl_id (dc x)) tele args end) with
@@ -160,14 +167,16 @@ Section D.
       else
         let x1 := if ci_in ci then
                     match ci_read ci with
-                    | None | Some [] => set_quit x
+                    | None | Some [] => set_eof (set_quit x)
                     | Some b => mkDcli (dc x) (dc_from x ++ b) (dc_to x) (dc_nl x + count_lf b) (dc_lines x)
+                                       (dc_eof x) (dc_bad x || dc_eof x) (dc_sent x)
                     end
                   else x in
         let '(x2, w) := if ci_out ci then
                           match ci_wrote ci with
-                          | None => (let y := set_quit x1 in mkDcli (dc y) (dc_from y) [] (dc_nl y) (dc_lines y), [])   (* cbuf_flush(c->to) *)
-                          | Some n => (mkDcli (dc x1) (dc_from x1) (skipn n (dc_to x1)) (dc_nl x1) (dc_lines x1), firstn n (dc_to x1))
+                          | None => (let y := set_quit x1 in mkDcli (dc y) (dc_from y) [] (dc_nl y) (dc_lines y) (dc_eof y) true (dc_sent y), [])   (* cbuf_flush(c->to) *)
+                          | Some n => (mkDcli (dc x1) (dc_from x1) (skipn n (dc_to x1)) (dc_nl x1) (dc_lines x1) (dc_eof x1) (dc_bad x1)
+                                              (dc_sent x1 ++ firstn n (dc_to x1)), firstn n (dc_to x1))
                           end
                         else (x1, []) in
         let st1 := mkDaemon (dm_nodes st) (dm_aliases st) (dm_specs st) (dm_pipe st) (dm_devs st)
@@ -222,7 +231,7 @@ Section D.
         let '(id, seq') := next_id (dm_seq st) in
         let c := new_client id (dm_version st) in
         (mkDaemon (dm_nodes st) (dm_aliases st) (dm_specs st) (dm_pipe st) (dm_devs st)
-                  (dm_clients st ++ [mkDcli c [] (cl_out c) O O]) seq' (dm_store st) (dm_version st) (dm_tel st), [SysAccept id])
+                  (dm_clients st ++ [mkDcli c [] (cl_out c) O O false false []]) seq' (dm_store st) (dm_version st) (dm_tel st), [SysAccept id])
       else (st, []) in
     cli_loop st1 O (pad_cins (length (dm_clients st1)) (r_cli r)) e1.
 
